@@ -6,7 +6,7 @@ CONSTANTS
   Ups = {TRUE, FALSE}
   Starts = {"ok", "nopath", "nochoice"}
   Vetoes = {"none", "can", "cno"}
-  MaxHdr = 2
+  MaxHdr = 1
   MaxSrv = 2
   MaxHout = 1
   MaxCtrlC = 1
